@@ -115,8 +115,12 @@ package redisemu
 //@ ghost gCollected refmapof:bool
 //@ ghost gCollectedAt refmapof:int
 //@ pred dbReady(d *dataStore) = d != nil && d.data != nil && d.waitingClients != nil && d.data.keyspace && d.data.owner == d && !d.data.scratch
+// set by FLUSHALL when it has run to its end (the handler replies only after that)
+//@ ghost gFlushedAll bool
 //@ func dataStoreSet.flushAll
 //@ prop C14
+//@ ghostentry gFlushedAll = true
+//@ ensures [C14] done: gFlushedAll
 //@ guards on
 //@ safetyprop none
 //@ mode int
@@ -127,7 +131,7 @@ package redisemu
 //@ requires free none.yet: forall r *dataStore :: !gCollected[r]
 //@ ghostafter "all = append(all, ds)" : gCollected = mapset(gCollected, ds, true)
 //@ ghostafter "all = append(all, ds)" : gCollectedAt = mapset(gCollectedAt, ds, len(all)-1)
-//@ modifies dataStore.data dataStore.commandNumber alloc ghost.held ghost.gCollected ghost.gCollectedAt ghost.mutexHeld
+//@ modifies dataStore.data dataStore.commandNumber alloc ghost.held ghost.gCollected ghost.gCollectedAt ghost.mutexHeld ghost.gFlushedAll
 //@ loop 1 invariant [C14] collected: forall j int :: visited(j) ==> gCollected[dss.dbs[j]]
 //@ loop 1 invariant [C14] witness: forall r *dataStore :: gCollected[r] ==> 0 <= gCollectedAt[r] && gCollectedAt[r] < len(all) && all[gCollectedAt[r]] == r && dbReady(r)
 //@ loop 1 invariant [C14] listed: allsel(k, 0, len(all), all[k] != nil && dbReady(all[k])) && !held
@@ -138,3 +142,19 @@ package redisemu
 //@ ensures [C14] all.empty: forall j int :: haskey(dss.dbs, j) ==> dss.dbs[j].data != nil && dss.dbs[j].data.count == 0
 //@ ensures [C14] inplace: forall j int :: dss.dbs[j] == old(dss.dbs[j])
 //@ ensures [C14,C13] released: !held
+
+// C14: FLUSHALL (with or without SYNC / ASYNC) replies after every database has been emptied: the
+// flush runs in the handler's own goroutine, to its end, before the reply is built
+//@ func fnFlushAll
+//@ prop C14
+//@ safetyprop none
+//@ mode int
+//@ requires ctx != nil && ctx.cs != nil && ctx.dsc != nil && dssOK(ctx.cs.dss) && !held
+//@ requires wf: forall j int :: dbsWF(ctx.cs.dss, j)
+//@ requires dscOK(ctx.dsc) && lockMode(ctx.dsc)
+//@ requires free ready: forall j int :: haskey(ctx.cs.dss.dbs, j) ==> dbReady(ctx.cs.dss.dbs[j])
+//@ requires free none.yet: forall r *dataStore :: !gCollected[r]
+//@ requires !gFlushedAll
+//@ modifies *
+//@ ensures [C14] flushed.before.reply: gFlushedAll
+//@ ensures [C14] reply: output.data == rstrOK
